@@ -44,7 +44,22 @@ def _is_rebind(st, cls=None, fn=None) -> bool:
     from ..astutil import inline, single_defs
     if isinstance(st, ast.Assign) and len(st.targets) == 1 and norm(st.targets[0]) == "self.get":
         v = inline(st.value, single_defs(fn.node)) if fn is not None else st.value
-        return norm(v) == "self._entries[-1].get"
+        if norm(v) == "self._entries[-1].get":
+            return True
+        # `self.get = X.get` where X is the object that the most recent change of the entry list put on top:
+        # `self._entries.append(X)` / `self._entries = [.., X]` directly before (same block, nothing in between touches the list)
+        if fn is not None and isinstance(st.value, ast.Attribute) and st.value.attr == "get" and isinstance(st.value.value, ast.Name):
+            x = st.value.value.id
+            block = fn.module.parent_of.get(st)
+            muts = [m_ for m_ in _entries_mutations(fn) if fn.module.parent_of.get(m_) is block and m_.lineno < st.lineno]
+            if muts:
+                last = max(muts, key=lambda m_: m_.lineno)
+                if isinstance(last, ast.Expr) and isinstance(last.value, ast.Call) and last.value.func.attr == "append" and len(last.value.args) == 1 and norm(last.value.args[0]) == x:
+                    return True
+                val = last.value if isinstance(last, (ast.Assign, ast.AnnAssign)) else None
+                if isinstance(val, ast.List) and val.elts and norm(val.elts[-1]) == x:
+                    return True
+        return False
     if cls is not None and isinstance(st, ast.Expr) and isinstance(st.value, ast.Call) and isinstance(st.value.func, ast.Attribute) and isinstance(st.value.func.value, ast.Name) and st.value.func.value.id == "self" and not st.value.args:
         h = cls.method(st.value.func.attr)
         if h is not None and h is not fn:
@@ -334,8 +349,15 @@ def r20_6(ctx):
         ctx.floor(len(parses), 1, "Style.parse fallbacks in get_style")
     th = ctx.repo.cls("theme:Theme")
     cfgp = th.method("config")
-    src = norm(cfgp.node)
-    ctx.check("'[styles]\\n'" in src and "f'{name} = {style}'" in src, cfgp.fq, "config template", cfgp.where, "config writes a [styles] section of `name = style` lines", "Theme.config no longer emits `[styles]` + `name = str(style)` lines")
+    from ..astutil import concat_parts, inline as _inl, single_defs as _sdf
+    crets = [r for r in walk_local(cfgp.node) if isinstance(r, ast.Return) and r.value is not None]
+    tmpl_ok = False
+    if len(crets) == 1:
+        mutable = {c.func.value.id for c in walk_local(cfgp.node) if isinstance(c, ast.Call) and isinstance(c.func, ast.Attribute) and isinstance(c.func.value, ast.Name) and c.func.attr in ("append", "extend")}
+        parts = concat_parts(_inl(crets[0].value, {k: v for k, v in _sdf(cfgp.node).items() if k not in mutable}))
+        tmpl_ok = len(parts) == 2 and parts[0] == "[styles]\n" and isinstance(parts[1], tuple) and parts[1][1].startswith("'\\n'.join(")
+    item_ok = any(isinstance(x, ast.JoinedStr) and norm(x) == "f'{name} = {style}'" for x in walk_local(cfgp.node))
+    ctx.check(tmpl_ok and item_ok, cfgp.fq, "config template", cfgp.where, "config writes a [styles] section of `name = style` lines", "Theme.config no longer emits `[styles]` + `name = str(style)` lines")
     gens = [x for x in walk_local(cfgp.node) if isinstance(x, (ast.GeneratorExp, ast.ListComp))]
     okg = len(gens) == 1 and len(gens[0].generators) == 1 and not gens[0].generators[0].ifs and norm(gens[0].generators[0].iter) in ("sorted(self.styles.items())", "self.styles.items()")
     if not gens:
